@@ -809,6 +809,8 @@ func (s *Server) handleRPCFormContract(stream net.Conn) error {
 		formationTxn.SiacoinInputs = formationTxn.SiacoinInputs[:len(req.RenterInputs)]
 		txnset, err := s.chain.UpdateV2TransactionSet([]types.V2Transaction{formationTxn}, req.Basis, basis)
 		if err != nil {
+			// put the host's inputs back so that the deferred release covers them
+			formationTxn.SiacoinInputs = append(formationTxn.SiacoinInputs, hostInputs...)
 			return errorBadRequest("failed to update renter inputs from %q to %q: %v", req.Basis, basis, err)
 		}
 		formationTxn = txnset[0]
@@ -966,6 +968,8 @@ func (s *Server) handleRPCRefreshContract(stream net.Conn, partial bool) error {
 		renewalTxn.SiacoinInputs = renewalTxn.SiacoinInputs[:len(req.RenterInputs)]
 		updated, err := s.chain.UpdateV2TransactionSet([]types.V2Transaction{renewalTxn}, req.Basis, basis)
 		if err != nil {
+			// put the host's inputs back so that the deferred release covers them
+			renewalTxn.SiacoinInputs = append(renewalTxn.SiacoinInputs, hostInputs...)
 			return errorBadRequest("failed to update renter inputs from %q to %q: %v", req.Basis, basis, err)
 		}
 		renewalTxn = updated[0]
@@ -1147,6 +1151,8 @@ func (s *Server) handleRPCRenewContract(stream net.Conn) error {
 		renewalTxn.SiacoinInputs = renewalTxn.SiacoinInputs[:len(req.RenterInputs)]
 		updated, err := s.chain.UpdateV2TransactionSet([]types.V2Transaction{renewalTxn}, req.Basis, basis)
 		if err != nil {
+			// put the host's inputs back so that the deferred release covers them
+			renewalTxn.SiacoinInputs = append(renewalTxn.SiacoinInputs, hostInputs...)
 			return errorBadRequest("failed to update renter inputs from %q to %q: %v", req.Basis, basis, err)
 		}
 		renewalTxn = updated[0]
